@@ -171,7 +171,6 @@ class Scheduler:
         if self.cluster.check_ingest_capacity(pipeline_demand, max_ingest):
             if self.provision_ingest + pipeline_demand <= max_ingest:
                 cluster_capacity = True
-                self.provision_ingest += pipeline_demand
                 LOGGER.debug(
                     "Cluster is able to process ingest for observation %s",
                     observation.name)
@@ -181,7 +180,11 @@ class Scheduler:
                 LOGGER.debug('Cluster is unable to process ingest as two'
                              'observations are scheduled at the same time')
 
-        return buffer_capacity and cluster_capacity
+        if buffer_capacity and cluster_capacity:
+            # Only an observation that is going ahead reserves ingest machines
+            self.provision_ingest += pipeline_demand
+            return True
+        return False
 
     def allocate_ingest(self, observation, pipelines, planner, max_ingest=None,
                         c='default'):
